@@ -64,6 +64,7 @@ type ChanV struct {
 	taken  int
 	sent   int
 	cvc    vclock
+	timer  bool // the channel of a time.After / time.NewTimer: may deliver at any moment (time is adversarial)
 }
 type chanItem struct {
 	v  Val
